@@ -576,3 +576,28 @@ Print Assumptions C06_value_string_ex_atoms.
 Print Assumptions C06_value_string_ex_lexes.
 Print Assumptions C06_value_string_ex_reads_back_computes.
 Print Assumptions C06_value_string_ex_reads_back_applies.
+
+(* ---- F58: a root-scope binding of gin.macro.value is an ordinary binding, not a macro named "" ---- *)
+Definition C06_rootmacro_entries : list sentry :=
+  [ {| e_scope := ""; e_sel := "gin.macro"; e_method := false;
+       e_params := [("value", {| v_repr_ok := true; v_lines := ["5"] |})] |};
+    {| e_scope := "mm"; e_sel := "gin.macro"; e_method := false;
+       e_params := [("value", {| v_repr_ok := true; v_lines := ["1"] |})] |} ].
+Theorem C06_rootscope_macro_is_a_section :
+  config_lines ["gin.macro"] [] C06_rootmacro_entries 80 4 =
+  ["# Macros:"; rule 80; "mm = 1"; ""; "# Parameters for macro:"; rule 80; "macro.value = 5"; ""].
+Proof. vm_compute. reflexivity. Qed.
+Print Assumptions C06_rootscope_macro_is_a_section.
+(* the macro section holds exactly the entries of gin.macro under a non-empty scope (their name) *)
+Theorem C06_macro_iff_named : forall e, is_macro e = true <-> (e_sel e = "gin.macro" /\ e_scope e <> "").
+Proof.
+  intro e. unfold is_macro. rewrite Bool.andb_true_iff, Bool.negb_true_iff, String.eqb_eq, String.eqb_neq. tauto.
+Qed.
+Print Assumptions C06_macro_iff_named.
+(* the code before the repair printed the root-scope entry in the macro section, as the line " = 5" *)
+Theorem C06_orig_rootscope_macro_treated_as_macro :
+  is_macro_orig {| e_scope := ""; e_sel := "gin.macro"; e_method := false;
+                   e_params := [("value", {| v_repr_ok := true; v_lines := ["5"] |})] |} = true /\
+  format_binding 80 4 "" {| v_repr_ok := true; v_lines := ["5"] |} = [" = 5"].
+Proof. vm_compute. split; reflexivity. Qed.
+Print Assumptions C06_orig_rootscope_macro_treated_as_macro.
